@@ -191,3 +191,205 @@ class ForAllReq(ReqModel):
 
 
 CONTRACTS = [ForAllEval, ForAllReq]
+
+
+ValSeq = z3.SeqSort(Z.Val)
+seq_of = z3.Function('seq_of', Z.Val, ValSeq)            # the elements an iterable user value delivers, in order
+CAT = z3.Function('CAT', Z.I, ValSeq)                    # spec: concatenation of the unwrapped values of the first i child rows
+row_val = z3.Function('row_val', Z.I, Z.Val)             # value of the child in its i-th row
+listval = z3.Function('listval', ValSeq, Z.Val)          # the Python list with these elements, as a user value
+
+
+def unwrap(v):
+    return z3.If(Z.is_iter(v), seq_of(v), z3.Unit(v))
+
+
+class ConcatenateEval(LibModel):
+    """symbolic.Concatenate._evaluate__ (C17): when not already bound, exactly one row, whose value under the node's id is
+    the list of all elements of the child's values over all child rows, in stream order and inner order, with
+    multiplicity (a non-iterable value counts as one element).
+    Spec function: CAT(0) = [], CAT(i+1) = CAT(i) ++ unwrap(row_val(i)); loop invariant acc == CAT(i)."""
+    qual = 'symbolic:Concatenate._evaluate__'
+    cls = 'Concatenate'
+    props = ('C17',)
+    modes = ('sound',)
+    trusted = ("list.extend appends the elements of an iterable in iteration order (A6); the per-variable lists kept under "
+               "other ids are not interpreted",)
+
+    def modenv(self):
+        env = base_modenv()
+        return env
+
+    def setup(self, eng):
+        sts = []
+        self.n = z3.Const('self', Z.Node)
+        c = Z.f_child(self.n)
+        for case in ('none', 'dict'):
+            st = State()
+            st.fields = init_fields()
+            st.ghost['self'] = self.n
+            st.locals['self'] = ZV(self.n, 'node')
+            st.path.append('sources=' + case)
+            st.assume(Z.nid(c) != Z.nid(self.n), c != Z.NoneNode)
+            if case == 'none':
+                st.locals['sources'] = NONE
+                st.ghost['sigma0'] = Z.ZMap.empty()
+            else:
+                sig = Z.ZMap.fresh('sigma')
+                st.locals['sources'] = eng.new_dict(st, sig)
+                st.ghost['sigma0'] = sig
+            st.ghost['acc'] = None
+            st.ghost['yields'] = 0
+            sts.append(st)
+        return sts
+
+    def getattr(self, eng, st, recv, name):
+        if isinstance(recv, Obj) and recv.kind == 'listdict':
+            return [(st, Meth(recv, name))]
+        if isinstance(recv, Obj) and recv.kind == 'acclist':
+            return [(st, Meth(recv, name))]
+        return super().getattr(eng, st, recv, name)
+
+    def f_defaultdict(self, eng, st, args, kwargs, node):
+        st = st.clone()
+        st.ghost['acc'] = z3.Empty(ValSeq)
+        return [(st, Obj('listdict'))]
+
+    def subscript(self, eng, st, recv, k):
+        if isinstance(recv, Obj) and recv.kind == 'listdict':
+            ki = eng.as_int(k)
+            return [(st, Obj('acclist', {'key': ki}))]
+        return None
+
+    def obj_acclist_extend(self, eng, st, recv, args, kwargs, node):
+        (o,) = args
+        st = st.clone()
+        is_self = recv.data['key'] == Z.nid(self.n)
+        if isinstance(o, ZV) and o.ty == 'val':
+            add = seq_of(o.t)
+        elif isinstance(o, Lst) and all(isinstance(x, ZV) and x.ty == 'val' for x in o.items):
+            add = z3.Concat(*[z3.Unit(x.t) for x in o.items]) if len(o.items) > 1 else (z3.Unit(o.items[0].t) if o.items else z3.Empty(ValSeq))
+        else:
+            raise OutOfSubset("extend argument", node)
+        st.ghost['acc'] = z3.If(is_self, z3.Concat(st.ghost['acc'], add), st.ghost['acc'])
+        return [(st, NONE)]
+
+    def obj_acclist_append(self, eng, st, recv, args, kwargs, node):
+        (o,) = args
+        st = st.clone()
+        is_self = recv.data['key'] == Z.nid(self.n)
+        # an append under the node's own id would put a wrapped value into the result list
+        eng.oblige(st, "C17/acc/only-extend-writes-the-result-list", z3.Not(is_self), line=node.lineno)
+        return [(st, NONE)]
+
+    def node__evaluate__(self, eng, st, recv, args, kwargs, node):
+        return [(st, Obj('childstream', {'node': recv.t}))]
+
+    def f_is_iterable(self, eng, st, args, kwargs, node):
+        (o,) = args
+        if isinstance(o, ZV) and o.ty == 'val':
+            return [(st, ZV(Z.is_iter(o.t), 'bool'))]
+        return super().f_is_iterable(eng, st, args, kwargs, node)
+
+    def abstract_loop(self, eng, st, s, it, ordinal):
+        c = Z.f_child(self.n)
+        if isinstance(it, Obj) and it.kind == 'childstream':
+            # arbitrary iteration i: invariant acc == CAT(i); the row binds the child's id (R5) to a value row_val(i)
+            i = z3.FreshConst(Z.I, 'i')
+            h = st.clone()
+            h.assume(i >= 0)
+            h.ghost['acc'] = CAT(i)
+            eng.oblige(st, "C17/acc/invariant-holds-initially", st.ghost['acc'] == CAT(z3.IntVal(0)), hyp=[CAT(z3.IntVal(0)) == z3.Empty(ValSeq)])
+            b = h.clone()
+            row = eng.new_dict(b, Z.ZMap.fresh('crow'))
+            m = b.dicts[row.ref]
+            b.assume(m.contains(Z.nid(c)), Z.hv_value(m.get(Z.nid(c))) == row_val(i), z3.Not(m.contains(Z.nid(self.n))))
+            outs = []
+            for b2 in eng.assign(s.target, row, b):
+                for o in eng.exec_block(s.body, b2):
+                    if o.sig in (NEXT, CONTINUE):
+                        eng.oblige(o.st, "C17/acc/invariant-preserved", o.st.ghost['acc'] == CAT(i + 1),
+                                   hyp=[CAT(i + 1) == z3.Concat(CAT(i), unwrap(row_val(i)))], line=s.lineno)
+                    elif o.sig == BREAK:
+                        eng.oblige(o.st, "C17/acc/no-early-exit", z3.BoolVal(False))
+                    else:
+                        outs.append(o)
+            e = st.clone()
+            n_rows = z3.Const('n_rows', Z.I)
+            e.assume(n_rows >= 0)
+            e.ghost['acc'] = CAT(n_rows)
+            e.ghost['after_loop'] = True
+            outs.append(Outcome(e))
+            return outs
+        if isinstance(it, Obj) and it.kind == 'dictitems':
+            # for id_, val in d.items(): every key exactly once.  Two symbolic executions of the body: the child's id, and any
+            # other id; the loop's effect on the accumulator is the first one's (the key is present).
+            m = st.dicts[it.data['ref']]
+            outs = []
+            acc0 = st.ghost['acc']
+            res_acc = None
+            for which in ('child', 'other'):
+                b = st.clone()
+                if which == 'child':
+                    k = Z.nid(c)
+                    if not eng.feasible(b, m.contains(k)):
+                        continue
+                    b.assume(m.contains(k))
+                else:
+                    k = z3.FreshConst(Z.I, 'otherkey')
+                    b.assume(k != Z.nid(c), m.contains(k))
+                for b2 in eng.assign(s.target, Tup([ZV(k, 'int'), ZV(m.get(k), 'hv')]), b):
+                    for o in eng.exec_block(s.body, b2):
+                        if o.sig in (NEXT, CONTINUE):
+                            if which == 'child':
+                                res_acc = o.st.ghost['acc'] if res_acc is None else res_acc
+                                o.st.ghost['_child_done'] = True
+                                outs.append(('child', o.st))
+                            else:
+                                eng.oblige(o.st, "C17/acc/other-variables-do-not-touch-the-result-list", o.st.ghost['acc'] == acc0, line=s.lineno)
+                        else:
+                            outs.append(('exit', o))
+            final = []
+            for kind, x in outs:
+                if kind == 'child':
+                    final.append(Outcome(x))
+                else:
+                    final.append(x)
+            if not any(kind == 'child' for kind, _ in outs):
+                final.append(Outcome(st))
+            return final
+        return super().abstract_loop(eng, st, s, it, ordinal)
+
+    def dictcomp(self, eng, st, e):
+        # {k: HashedValue(v) for k, v in all_values.items()}: the result row; only the node's own entry is interpreted
+        st = st.clone()
+        return [(st, Obj('resultrow', {'own': listval(st.ghost['acc'])}))]
+
+    def on_yield(self, eng, st, v, ordinal, node):
+        st = st.clone()
+        st.ghost['yields'] = st.ghost.get('yields', 0) + 1
+        if isinstance(v, D):
+            # already bound: the incoming binding is passed on
+            eng.oblige(st, f"C17/bound@yield#{ordinal}/passes-the-binding-on", st.ghost['sigma0'].contains(Z.nid(self.n)), line=node.lineno)
+            return [st]
+        if not (isinstance(v, Obj) and v.kind == 'resultrow'):
+            raise OutOfSubset("yield value", node)
+        eng.oblige(st, f"C17/row@yield#{ordinal}/emitted-after-all-child-rows", z3.BoolVal(bool(st.ghost.get('after_loop'))), line=node.lineno)
+        eng.oblige(st, f"C17/row@yield#{ordinal}/value-is-the-concatenation-of-all-child-values-in-order",
+                   v.data['own'] == listval(CAT(z3.Const('n_rows', Z.I))), line=node.lineno)
+        eng.oblige(st, f"C17/row@yield#{ordinal}/exactly-one-row", z3.BoolVal(st.ghost['yields'] == 1), line=node.lineno)
+        eng.oblige(st, f"cover@yield#{ordinal}", z3.BoolVal(True), kind='cover', line=node.lineno)
+        return [st]
+
+    def on_exit(self, eng, o):
+        st = o.st
+        if o.sig in (NEXT, RETURN):
+            eng.oblige(st, "C17/exactly-one-row", z3.BoolVal(st.ghost.get('yields', 0) == 1))
+        elif o.sig == RAISE:
+            eng.oblige(st, "C17/no-exception", z3.BoolVal(False))
+
+    def signature(self, ob, model):
+        return {}
+
+
+CONTRACTS += [ConcatenateEval]
